@@ -1889,7 +1889,7 @@ int tls_authorities_from_certs(uint8_t *names, size_t *nameslen, size_t maxlen, 
 			error_print();
 			return -1;
 		}
-		maxlen -= alen;
+		maxlen -= tls_uint16_size() + alen;
 	}
 	return 1;
 }
